@@ -28,10 +28,10 @@ def run(tier):
     path = os.path.join(work, 'includes.py')
     body = [HEAD]
     conds = []
-    body.append('def place__0(in_c: bool, in_e: bool, in_s: bool, n: int, em: int) -> bool:\n    """\n    pre: 1 <= n <= 300 and 1 <= em <= 300\n    post: _\n    """\n'
-                '    return FH.include_placement(in_c, in_e, in_s, n, em)\n\n')
-    conds.append(Cond(path, 'place__0', 'include-placement', dict(check='layouts equal the flat file', symbolic='which of 3 declarations live in the included file; constant and enumerator values'),
-                      sample_args=[True, True, False, 3, 2]))
+    body.append('def place__0(in_c: bool, in_e: bool, in_s: bool, n: int, em: int, name_sel: int) -> bool:\n    """\n    pre: 1 <= n <= 300 and 1 <= em <= 300 and 0 <= name_sel <= 3\n    post: _\n    """\n'
+                '    return FH.include_placement(in_c, in_e, in_s, n, em, name_sel)\n\n')
+    conds.append(Cond(path, 'place__0', 'include-placement', dict(check='layouts equal the flat file', symbolic='which of 3 declarations live in the included file; constant and enumerator values; base name of the included file (neutral or equal to a name it defines)'),
+                      sample_args=[True, True, True, 3, 2, 1]))
     body.append('def path__0(in_own: bool, in_i1: bool, in_i2: bool, nested: bool) -> bool:\n    """\n    post: _\n    """\n    return K.path_resolution(in_own, in_i1, in_i2, nested)\n\n')
     conds.append(Cond(path, 'path__0', 'path-resolution', dict(check='first existing candidate in the documented order; directory stack restored', symbolic='which of 3 directories contain the leaf; depth of the including file'),
                       sample_args=[False, True, True, False]))
